@@ -34,7 +34,7 @@ PROPS: Dict[str, Dict[str, Any]] = {
                           "where the real code does raise",
             "stream": "core", "opts": {"salt": "c01", "special_rate": 0.05, "zero_factor_rate": 0.12},
             "quick_n": 8000, "thorough_n": 200000, "fields": ["out"]},
-    "C03": {"theorems": ["loopItems_iff", "ItemsRun.sound", "ItemsRun.complete", "ItemsRun.sorted", "ItemsRun.length",
+    "C03": {"theorems": ["src_glue_pinned", "loopItems_iff", "ItemsRun.sound", "ItemsRun.complete", "ItemsRun.sorted", "ItemsRun.length",
                          "ItemsRun.all_valid", "loopItems_hash", "C03_seq_container_first", "C03_pre_iff",
                          "C03_seq_accept_iff", "C03_seq_reject_iff", "C03_list_run", "C03_set_run", "C03_utuple_run",
                          "loopFields_iff", "C03_ntuple_container_first", "C03_ntuple_pre_iff", "C03_ntuple_arity",
@@ -54,7 +54,7 @@ PROPS: Dict[str, Dict[str, Any]] = {
                          "src_map_sync", "src_map_async", "src_map_init", "mapSync_eq", "mapAsync_eq", "mGate_exec",
                          "mPreds_exec", "mAPreds_exec", "mCheck_exec", "mforFold2_pairs", "mforFold2_pairs_err", "mFinal_exec",
                          "mTail_exec", "mforFold_preds", "mforFold_apreds"],
-            "modules": ["KodaModel.Properties.C03", "KodaModel.Properties.C03Src", "KodaModel.Properties.C03Seq",
+            "modules": ["KodaModel.Properties.GluePins", "KodaModel.Properties.C03", "KodaModel.Properties.C03Src", "KodaModel.Properties.C03Seq",
                         "KodaModel.Properties.C03NTuple", "KodaModel.Properties.C03Map"],
             "level_note": "the list validator is tied to the source twice: (1) TRANSLATOR - harness/pysrc.py rewrites "
                           "Generated/ListSrc.lean from the AST of ListValidator._validate_to_tuple / _validate_to_tuple_async "
@@ -75,7 +75,7 @@ PROPS: Dict[str, Dict[str, Any]] = {
                           "every collection validator's control flow is now translated; (2) the correspondence stream",
             "stream": "core", "opts": {"salt": "c03", "gen": ["streams", "gen_collection_case"]},
             "quick_n": 6000, "thorough_n": 100000, "fields": ["out", "trace"]},
-    "C04": {"theorems": ["recLoop_of_run", "recLoop_to_run", "RecRun.errs_length", "RecRun.no_errs_iff", "C04_pre_first",
+    "C04": {"theorems": ["src_glue_pinned", "recLoop_of_run", "recLoop_to_run", "RecRun.errs_length", "RecRun.no_errs_iff", "C04_pre_first",
                          "C04_pre_iff", "C04_unknown_first", "C04_gate_record", "C04_gate_dictAny",
                          "C04_gate_typeddict", "C04_gate_class_dict", "C04_gate_class_other", "recordStep_inr",
                          "C04_keyerrs_exact", "C04_all_keys_ok", "C04_accept_no_oc", "C04_objcheck_fails",
@@ -93,7 +93,7 @@ PROPS: Dict[str, Dict[str, Any]] = {
                          "src_class_generic", "src_class_same", "src_instance_to_dict", "dataclassSync_eq", "dataclassAsync_eq",
                          "cGate_exec", "recGate_class", "clsGate_dict", "clsGate_inst", "clsGate_rej", "cFinal_keys",
                          "cFinal_ok", "cTail_exec", "clsGate_dict_of_no_coercer", "src_class_inits"],
-            "modules": ["KodaModel.Properties.C04", "KodaModel.Properties.C04DictAny", "KodaModel.Properties.C04Record",
+            "modules": ["KodaModel.Properties.GluePins", "KodaModel.Properties.C04", "KodaModel.Properties.C04DictAny", "KodaModel.Properties.C04Record",
                         "KodaModel.Properties.C04TypedDict", "KodaModel.Properties.C04Class"],
             "level_note": "the C04_* theorems state the property about recordStep (all five record-shaped validators share it).  "
                           "Tie to the source: (1) TRANSLATOR, for DictValidatorAny - harness/pysrc.py rewrites "
@@ -119,14 +119,14 @@ PROPS: Dict[str, Dict[str, Any]] = {
                           "interpreter's reading of the Python subset; CPython for dict / set membership",
             "stream": "core", "opts": {"salt": "c04", "gen": ["streams", "gen_record_case"]},
             "quick_n": 6000, "thorough_n": 100000, "fields": ["out", "trace"]},
-    "C02": {"theorems": ["runPreds_spec", "runAPreds_spec", "runAPreds_all_awaited", "contPreds_spec", "runProcs_spec",
+    "C02": {"theorems": ["src_glue_pinned", "runPreds_spec", "runAPreds_spec", "runAPreds_all_awaited", "contPreds_spec", "runProcs_spec",
                          "C02_gate_exact", "C02_lookalikes", "C02_accept_iff", "C02_reject", "C02_gate_rej_kinds",
                          "C02_sync_guard", "C02_equals_accept_iff", "C02_equals_type_err", "C02_none",
                          "src_scalar_sync", "src_scalar_async", "src_scalar_simple", "src_scalar_init",
                          "src_scalar_fastpath_consistent", "scalarSync_eq", "scalarAsync_eq", "gate_exec", "procs_exec",
                          "predsSync_exec", "predsAsync_exec", "compFold_sync", "compFold_async", "forFold_procs",
                          "src_equals", "src_equals_pins", "equals_eq", "equals_tail", "eforFold_procs"],
-            "modules": ["KodaModel.Properties.C02", "KodaModel.Properties.C02Src", "KodaModel.Properties.C02Eq"],
+            "modules": ["KodaModel.Properties.GluePins", "KodaModel.Properties.C02", "KodaModel.Properties.C02Src", "KodaModel.Properties.C02Eq"],
             "level_note": "the scalar pipeline is tied to the source twice: (1) TRANSLATOR - harness/pysrc.py rewrites "
                           "Generated/ScalarSrc.lean from the AST of _ToTupleStandardValidator._validate_to_tuple, "
                           "_validate_to_tuple_async and the bare-validator fast path (_internal.py: the code behind all ten "
@@ -173,8 +173,9 @@ PROPS: Dict[str, Dict[str, Any]] = {
                          "C05_recursive_terminates", "run_mono", "Run.unique",
                          "src_union_sync", "src_union_async", "src_union_uses", "unionSync_eq", "unionAsync_eq",
                          "uBody_exec", "uforFold_union",
-                         "src_maybe", "src_knr", "src_lazy", "src_always", "src_none", "src_isDict", "src_wrap_pins"],
-            "modules": ["KodaModel.Properties.C05", "KodaModel.Properties.C05Src", "KodaModel.Properties.C05Wrap"],
+                         "src_maybe", "src_knr", "src_lazy", "src_always", "src_none", "src_isDict", "src_wrap_pins", "src_result_map_pinned"],
+            "modules": ["KodaModel.Properties.C05", "KodaModel.Properties.C05Src", "KodaModel.Properties.C05Wrap",
+                        "KodaModel.Properties.C05Pins"],
             "level_note": "the union loop is tied to the source twice: (1) TRANSLATOR - harness/pysrc.py rewrites "
                           "Generated/UnionSrc.lean from the AST of _union_validator / _union_validator_async (_internal.py; "
                           "UnionValidator and OptionalValidator only delegate to them: src_union_uses) on every run, and "
@@ -183,11 +184,12 @@ PROPS: Dict[str, Dict[str, Any]] = {
                           "of variants of either flavour and every input; likewise Generated/WrapSrc.lean for MaybeValidator, "
                           "KeyNotRequired, Lazy, AlwaysValid, NoneValidator and IsDictValidator (KodaModel/PyWrap.lean; src_maybe, "
                           "src_knr, src_lazy, src_always, src_none, src_isDict: each translated method is the model's step, both "
-                          "entry points); (2) the correspondence stream.  Cache wrappers and Valid.map / Invalid.map: "
-                          "hand-modelled, correspondence only",
+                          "entry points); (2) the correspondence stream.  Cache wrappers: tied under C20 (src_cache_*); "
+                          "Valid.map / Invalid.map: hand-modelled (C05_map_valid / C05_map_invalid), text pinned "
+                          "(src_result_map_pinned)",
             "stream": "core", "opts": {"salt": "c05", "gen": ["streams", "gen_wrapper_case"]},
             "quick_n": 6000, "thorough_n": 100000, "fields": ["out", "trace"]},
-    "C06": {"modules": ["KodaModel.Properties.C06", "KodaModel.Properties.C06Sync", "KodaModel.Properties.C06Src"],
+    "C06": {"modules": ["KodaModel.Properties.GluePins", "KodaModel.Properties.C06", "KodaModel.Properties.C06Sync", "KodaModel.Properties.C06Src"],
             "level_note": "C06_src_*: for every validator whose two methods are translated from the source on each run (scalar "
                           "pipeline, union loop, list, set, uniform tuple, n-tuple, map, the five record-shaped validators) "
                           "the *translated* sync method and the *translated* async method agree whenever the sync one does "
@@ -195,7 +197,7 @@ PROPS: Dict[str, Dict[str, Any]] = {
                           "step-level agreement lemmas.  C06_agree: for every tree and fuel, when the sync call does not raise its guard error both modes return "
                           "the same outcome; C06_sync_returns: a tree without async-only checks (afree, judged through the "
                           "environment for Lazy) never raises the guard error in sync mode - every validator kind, any fuel",
-            "theorems": ["C06_sync_returns", "PredK_call_noassert", "recordStep_noassert", "mapStep_noassert",
+            "theorems": ["src_glue_pinned", "C06_sync_returns", "PredK_call_noassert", "recordStep_noassert", "mapStep_noassert",
                          "ntupleStep_noassert", "unionStep_noassert", "scalarStep_noassert",
                          "C06_agree", "C06_agree_Run", "C06_never_skipped", "seqStep_noAssert", "loopItems_agree",
                          "recordStep_agree", "unionStep_agree", "mapStep_agree", "ntupleStep_agree", "seqStep_agree",
